@@ -69,14 +69,17 @@ func (c *Ctx) fileFieldWrites(field string) []fieldWrite {
 
 // registration function: the method (recv *File, string) string that updates File.imports.
 func (c *Ctx) registerFn() *ssa.Function {
+	if c.regFn != nil {
+		return c.regFn
+	}
 	var cands []*ssa.Function
 	seen := map[*ssa.Function]bool{}
-	for _, w := range c.fileFieldWrites("imports") {
-		if w.kind != "mapupdate" || seen[w.fn] {
+	for _, f := range c.CG().Funcs {
+		if seen[f] || !isFileMethod(c, f) {
 			continue
 		}
-		sig := w.fn.Signature
-		if sig.Recv() == nil || sig.Params().Len() != 1 || sig.Results().Len() != 1 {
+		sig := f.Signature
+		if sig.Params().Len() != 1 || sig.Results().Len() != 1 {
 			continue
 		}
 		if b, ok := sig.Params().At(0).Type().Underlying().(*types.Basic); !ok || b.Kind() != types.String {
@@ -85,13 +88,23 @@ func (c *Ctx) registerFn() *ssa.Function {
 		if b, ok := sig.Results().At(0).Type().Underlying().(*types.Basic); !ok || b.Kind() != types.String {
 			continue
 		}
-		seen[w.fn] = true
-		cands = append(cands, w.fn)
+		// updates a map field of File itself, or through a helper it calls
+		upd := false
+		for _, ef := range c.CG().Sum[f].Effects {
+			if ef.Kind == "mapupdate" && strings.HasPrefix(ef.Field, "jen.File.") && ef.Root.Kind == "param" && ef.Root.Idx == 0 {
+				upd = true
+			}
+		}
+		if upd {
+			seen[f] = true
+			cands = append(cands, f)
+		}
 	}
 	if len(cands) != 1 {
-		broken("anchor lost: expected exactly one registration function (method (*File)(string) string updating File.imports), found %d", len(cands))
+		broken("anchor lost: expected exactly one registration function (method (*File)(string) string updating a map field of File), found %d", len(cands))
 	}
-	return cands[0]
+	c.regFn = cands[0]
+	return c.regFn
 }
 
 // implementations of a Code method.
@@ -203,7 +216,7 @@ func ruleRenderStores(c *Ctx) []Obligation {
 				continue
 			}
 			total++
-			if ef.Kind == "mapupdate" && ef.Field == "jen.File.imports" && ef.Via == fname(reg) {
+			if ef.Kind == "mapupdate" && ef.Field == "jen.File."+c.ff("imports") && ef.Via == fname(reg) {
 				continue
 			}
 			if ef.Kind == "extmut" && ef.Root.Kind == "param" && isWriterParam(e, ef.Root.Idx) {
@@ -291,7 +304,8 @@ func ruleImportsWriters(c *Ctx) []Obligation {
 	o := c.newObs("W-IMPORTS-WRITERS")
 	reg := c.registerFn()
 	hintSetters := map[string]bool{"ImportName": true, "ImportNames": true, "ImportAlias": true}
-	for _, field := range []string{"imports", "hints"} {
+	for _, fieldRole := range []string{"imports", "hints"} {
+		field := c.ff(fieldRole)
 		ws := c.fileFieldWrites(field)
 		if len(ws) == 0 {
 			o.undecided("jen.File."+field, "no writer found", token.NoPos, "anchor lost: File.%s is never written", field)
@@ -312,16 +326,16 @@ func ruleImportsWriters(c *Ctx) []Obligation {
 			case "mapupdate":
 				mu := w.in.(*ssa.MapUpdate)
 				switch {
-				case field == "imports" && w.fn == reg:
+				case fieldRole == "imports" && w.fn == reg:
 					o.add(Discharged, fn, construct, w.in.Pos(), true, "registration function (key %s)", a.Desc(mu.Key))
-				case field == "imports":
+				case fieldRole == "imports":
 					// Anon idiom: constant {"_", true}
 					fs, ok := a.structLit(mu.Value)
-					name, _ := constString(fs["name"])
-					al, _ := constBool(fs["alias"])
-					ok = ok && fs["name"] != nil && name == "_" && fs["alias"] != nil && al
+					name, _ := constString(fs[c.ff("defname")])
+					al, _ := constBool(fs[c.ff("defalias")])
+					ok = ok && fs[c.ff("defname")] != nil && name == "_" && fs[c.ff("defalias")] != nil && al
 					o.req(ok, fn, construct, w.in.Pos(), "outside the registration function only the anonymous-import entry {name:\"_\", alias:true} may be stored (Anon); found value %s — imports must be added lazily by rendering a reference", a.Desc(mu.Value))
-				case field == "hints":
+				case fieldRole == "hints":
 					ok := hintSetters[w.fn.Name()] && w.fn.Signature.Recv() != nil
 					o.req(ok, fn, construct, w.in.Pos(), "File.hints may only be updated by ImportName / ImportNames / ImportAlias")
 					if !ok {
@@ -330,8 +344,8 @@ func ruleImportsWriters(c *Ctx) []Obligation {
 					// the hint stored is exactly what the caller said: {name, alias iff ImportAlias}, under the caller's path
 					fs, okLit := a.structLit(mu.Value)
 					wantAlias := w.fn.Name() == "ImportAlias"
-					al, isC := constBool(fs["alias"])
-					if fs["alias"] == nil {
+					al, isC := constBool(fs[c.ff("defalias")])
+					if fs[c.ff("defalias")] == nil {
 						al, isC = false, true
 					}
 					var wantKey, wantName ssa.Value
@@ -344,9 +358,9 @@ func ruleImportsWriters(c *Ctx) []Obligation {
 					} else if len(w.fn.Params) == 3 {
 						wantKey, wantName = w.fn.Params[1], w.fn.Params[2]
 					}
-					shape := okLit && isC && al == wantAlias && wantKey != nil && stripConv(mu.Key) == wantKey && fs["name"] != nil && stripConv(fs["name"]) == wantName
+					shape := okLit && isC && al == wantAlias && wantKey != nil && stripConv(mu.Key) == wantKey && fs[c.ff("defname")] != nil && stripConv(fs[c.ff("defname")]) == wantName
 					o.req(shape, fn, construct+" stores the caller's name under the caller's path, flagged alias exactly for ImportAlias", w.in.Pos(),
-						"stored {name: %s, alias: %s} under %s on every path — an alias recorded as a plain name is printed without alias in the import block while the body still uses it", a.Desc(fs["name"]), a.Desc(fs["alias"]), a.Desc(mu.Key))
+						"stored {name: %s, alias: %s} under %s on every path — an alias recorded as a plain name is printed without alias in the import block while the body still uses it", a.Desc(fs[c.ff("defname")]), a.Desc(fs[c.ff("defalias")]), a.Desc(mu.Key))
 					// unconditional: the update lies on every path (for the loop form: every iteration)
 					uncond := true
 					if w.fn.Name() != "ImportNames" {
